@@ -27,7 +27,7 @@ var Solvers = []SolverCfg{
 	}},
 }
 
-var funcSyms = []string{"ASum", "OccI", "OccR", "OccX", "XSum", "SetSum", "f64bits", "bandI", "r_ln", "r_exp", "r_log2", "r_exp2", "r_cbrt", "r_sqrt", "r_pow", "sf$"}
+var funcSyms = []string{"ASum", "OccI", "OccR", "OccX", "XSum", "SetSum", "Tot", "f64bits", "bandI", "r_ln", "r_exp", "r_log2", "r_exp2", "r_cbrt", "r_sqrt", "r_pow", "sf$"}
 
 func symbolsOf(s string, quantified bool) []string {
 	var out []string
